@@ -46,12 +46,11 @@ Proof.
   destruct (i <? length l')%nat; reflexivity.
 Qed.
 
-Lemma post_recv_lifecycle se m0 m t se' r :
-  session_post_recv se m t = (se', r) -> s_key se = m_key m0 ->
-  m_exid m = m_exid m0 -> m_init m = m_init m0 -> m_op m = m_op m0 ->
-  forall i, lifecycle (LRx m0) (s_key se) (s_expired se) (view se i) (view se' i).
+Lemma post_recv_lifecycle se m t se' r :
+  session_post_recv se m t = (se', r) -> s_key se = m_key m ->
+  forall i, lifecycle (LRx m) (s_key se) (s_expired se) (view se i) (view se' i).
 Proof.
-  intros H Hk Ex Ei Eo j. unfold view.
+  intros H Hk j. unfold view.
   destruct (session_post_recv_cases _ _ _ _ _ H) as [[_ [_ E]]|[_ [C|C]]].
   - rewrite E. constructor.
   - destruct C as [i [e [Hf [[e' [He [_ E]]]|[_ [_ E]]]]]]; rewrite E; [|constructor].
@@ -68,7 +67,7 @@ Proof.
     + assert (Hlt : (j < length l')%nat) by (apply nth_error_Some; congruence).
       destruct (Nat.ltb_spec j (length l')); [|lia]. cbn [oview]. rewrite Hid, Hro.
       assert (Hv : oview (nth_error (s_exchs se) j) = None) by (destruct Hfree as [-> | ->]; reflexivity).
-      rewrite Hv. rewrite Ex. apply (LcOpen _ _ _ m0); try reflexivity; try congruence.
+      rewrite Hv. apply (LcOpen _ _ _ m); try reflexivity; try assumption. symmetry. exact Hk.
     + rewrite (Hoth j) by congruence. constructor.
 Qed.
 
@@ -128,7 +127,16 @@ Proof.
   intros I. destruct l as [m| |sid idx|sid idx|sid idx|sid idx ctr rel|sid exid| | | |key enc grp|sid|sid|d];
     cbn [step].
   - (* LRx *)
-    destruct (rx s); try discriminate. intros H; inversion H as [H1]; clear H. revert H1. unfold do_rx.
+    destruct (rx s); try discriminate. intros H; inversion H as [H1]; clear H.
+    (* the final group clean-up only removes a session *)
+    assert (Hcore : forall s1 ev1, do_rx_core s m = (s1, ev1) ->
+              forall se', In se' (sessions s1) -> from_old (LRx m) (sessions s) se' \/ brand_new (LRx m) (sessions s) se').
+    2:{ revert H1. unfold do_rx. destruct (do_rx_core s m) as [s1 ev1] eqn:E.
+        destruct (rx_sid s m) as [sid|]; [|intros H; inversion H; subst; eapply Hcore; reflexivity].
+        destruct (m_group m && negb (is_holding (rx s1))); intros H; inversion H; subst;
+          [|eapply Hcore; reflexivity].
+        simp_sys. intros se' Hin. eapply Hcore; [reflexivity|]. eapply in_group_gc. exact Hin. }
+    clear H1. intros s1 ev1 H1. revert H1. unfold do_rx_core.
     (* whatever the outcome, the resulting table is the intermediate one or has one session less *)
     assert (Hdisp : forall (ss1 : list session) nsid (sidr : N) (r : res bool) s2 ev2,
       (let mk ss r0 := mkSys ss r0 (handles s) (now s) nsid in
@@ -157,39 +165,35 @@ Proof.
         try exact Hx; eapply in_remove_sid; exact Hx. }
     destruct (find_key (sessions s) (m_key m)) as [se|] eqn:Hk.
     + destruct (find_key_some _ _ _ Hk) as [Hse Hkey].
-      set (m1 := if s_group se then strip_mrp m else m).
-      assert (Em : m_exid m1 = m_exid m /\ m_init m1 = m_init m /\ m_op m1 = m_op m).
-      { unfold m1. destruct (s_group se); repeat split. }
-      destruct (session_post_recv se m1 (now s)) as [se1 r] eqn:Hp.
+      destruct (session_post_recv se m (now s)) as [se1 r] eqn:Hp.
       destruct (session_post_recv_fields _ _ _ _ _ Hp) as [Eid [Ekey _]].
       assert (Hupd : forall x, In x (upd_sid (sessions s) (s_id se) (fun _ => se1)) ->
                 from_old (LRx m) (sessions s) x).
       { intros x0 Hx0. eapply from_old_upd; [|exact Hx0]. intros y Hy Ey.
         assert (y = se) by (eapply nodup_sid_unique; [apply (inv_nodup _ I)| | |]; eassumption). subst y.
         repeat split; try assumption. intros i.
-        eapply (post_recv_lifecycle se m m1); try eassumption; tauto. }
+        eapply post_recv_lifecycle; eassumption. }
       intros H1 se' Hin. left. apply Hupd. exact (Hdisp _ _ _ _ _ _ H1 se' Hin).
-    + assert (Hnewgen : forall e g m1 se1 r,
-                m_exid m1 = m_exid m -> m_init m1 = m_init m -> m_op m1 = m_op m ->
-                session_post_recv (new_session (next_sid s) (m_key m) e g) m1 (now s) = (se1, r) ->
+    + assert (Hnewgen : forall e g se1 r,
+                session_post_recv (new_session (next_sid s) (m_key m) e g) m (now s) = (se1, r) ->
                 brand_new (LRx m) (sessions s) se1).
-      { intros e g m1 se1 r E1 E2 E3 Hp.
+      { intros e g se1 r Hp.
         destruct (session_post_recv_fields _ _ _ _ _ Hp) as [Eid [Ekey [_ [Eexp _]]]]. simp_sess.
         split.
         - intros y Hy. pose proof (inv_lt _ I y Hy). lia.
-        - intros i. pose proof (post_recv_lifecycle _ m m1 _ _ _ Hp eq_refl E1 E2 E3 i) as L. simp_sess.
+        - intros i. pose proof (post_recv_lifecycle _ _ _ _ _ Hp eq_refl i) as L. simp_sess.
           rewrite Ekey. unfold view at 1 in L. simp_sess.
           replace (nth_error (@nil (option exch)) i) with (@None (option exch)) in L by (destruct i; reflexivity).
           exact L. }
       destruct (negb (m_enc m) && is_new_session (m_op m)).
       * destruct (session_post_recv (new_session (next_sid s) (m_key m) false false) m (now s)) as [se1 r] eqn:Hp.
-        pose proof (Hnewgen _ _ _ _ _ eq_refl eq_refl eq_refl Hp) as Hnew.
+        pose proof (Hnewgen _ _ _ _ Hp) as Hnew.
         intros H1 se' Hin. pose proof (Hdisp _ _ _ _ _ _ H1 se' Hin) as Hin'.
         apply in_app_or in Hin'. destruct Hin' as [Hold|[<-|[]]];
           [left; apply from_old_self; exact Hold|right; exact Hnew].
       * destruct (m_enc m && m_group m).
-        -- destruct (session_post_recv (new_session (next_sid s) (m_key m) true true) (strip_mrp m) (now s)) as [se1 r] eqn:Hp.
-           pose proof (Hnewgen _ _ (strip_mrp m) _ _ eq_refl eq_refl eq_refl Hp) as Hnew.
+        -- destruct (session_post_recv (new_session (next_sid s) (m_key m) true true) m (now s)) as [se1 r] eqn:Hp.
+           pose proof (Hnewgen _ _ _ _ Hp) as Hnew.
            intros H1 se' Hin. pose proof (Hdisp _ _ _ _ _ _ H1 se' Hin) as Hin'.
            apply in_app_or in Hin'. destruct Hin' as [Hold|[<-|[]]];
              [left; apply from_old_self; exact Hold|right; exact Hnew].
